@@ -21,3 +21,7 @@ pub mod divide;
 pub use divide::*;
 pub mod chains;
 pub use chains::*;
+pub mod bnspec;
+pub use bnspec::*;
+pub mod factoring;
+pub use factoring::*;
